@@ -29,14 +29,34 @@ pub struct Case {
 struct Expect {
     recognised: Vec<(ROpt, u64)>,
     unhonourable: Option<String>,
+    /// per option: the largest requested value the server can honour (an option may be repeated)
+    honourable_max: Vec<(ROpt, u64)>,
+    /// options that occur more than once in the request
+    repeated: Vec<ROpt>,
+    /// a tsize beyond 2^64-1 was sent (WRQ only): cannot be echoed as a number
+    oversize_tsize: Option<String>,
 }
 
 fn expectations(c: &Case) -> Expect {
     let mut recognised = vec![];
     let mut unhonourable = None;
+    let mut honourable_max: Vec<(ROpt, u64)> = vec![];
+    let mut repeated = vec![];
+    let mut oversize_tsize = None;
     for (n, v) in &c.opts {
         if let Some(o) = ROpt::from_ascii_ci(n.as_bytes()) {
-            let val: u64 = v.parse().expect("generator emits numeric values for recognised options");
+            if recognised.iter().any(|(ro, _)| *ro == o) && !repeated.contains(&o) {
+                repeated.push(o);
+            }
+            let Ok(val) = v.parse::<u64>() else {
+                // only generated for tsize: a decimal number beyond 2^64-1
+                recognised.push((o, u64::MAX));
+                oversize_tsize = Some(v.clone());
+                if unhonourable.is_none() {
+                    unhonourable = Some(format!("{}={}", o.name(), v));
+                }
+                continue;
+            };
             recognised.push((o, val));
             let bad = match o {
                 ROpt::Timeout => val == 0,
@@ -44,12 +64,18 @@ fn expectations(c: &Case) -> Expect {
                 ROpt::Blksize => !(8..=65464).contains(&val),
                 ROpt::Tsize => false,
             };
-            if bad && unhonourable.is_none() {
-                unhonourable = Some(format!("{}={}", o.name(), val));
+            if bad {
+                if unhonourable.is_none() {
+                    unhonourable = Some(format!("{}={}", o.name(), val));
+                }
+            } else if let Some(e) = honourable_max.iter_mut().find(|(ro, _)| *ro == o) {
+                e.1 = e.1.max(val);
+            } else {
+                honourable_max.push((o, val));
             }
         }
     }
-    Expect { recognised, unhonourable }
+    Expect { recognised, unhonourable, honourable_max, repeated, oversize_tsize }
 }
 
 struct Out {
@@ -138,12 +164,18 @@ fn converse(srv: &mut Server, c: &Case, file: &[u8], recv_dir: &Path, out: &mut 
             }
             let mut seen = vec![];
             for (o, v) in list {
-                if seen.contains(o) {
+                if seen.contains(o) && !ex.repeated.contains(o) {
                     return Err(("oack-duplicate".into(), format!("OACK lists {} twice: {:?}", o.name(), list)));
                 }
                 seen.push(*o);
-                let Some((_, req_v)) = ex.recognised.iter().find(|(ro, _)| ro == o) else {
+                let Some((_, first_req_v)) = ex.recognised.iter().find(|(ro, _)| ro == o) else {
                     return Err(("oack-unrequested".into(), format!("OACK lists {}={} which was not requested ({:?})", o.name(), v, c.opts)));
+                };
+                // (a repeated option: judged against the largest value the server could honour)
+                let req_v = match ex.honourable_max.iter().find(|(ro, _)| ro == o) {
+                    Some((_, m)) => m,
+                    None if *o == ROpt::Tsize => first_req_v,
+                    None => return Err(("acknowledged-unhonourable".into(), format!("OACK {:?} acknowledges {} although no requested value of it can be honoured ({:?})", list, o.name(), c.opts))),
                 };
                 match o {
                     ROpt::Blksize => {
@@ -166,6 +198,9 @@ fn converse(srv: &mut Server, c: &Case, file: &[u8], recv_dir: &Path, out: &mut 
                         timeout_acked = true;
                     }
                     ROpt::Tsize => {
+                        if c.write && ex.oversize_tsize.is_some() {
+                            return Err(("oack-tsize".into(), format!("OACK tsize {} does not echo the client's value {}", v, ex.oversize_tsize.as_ref().unwrap())));
+                        }
                         let want = if c.write { *req_v } else { file.len() as u64 };
                         if *v != want {
                             return Err(("oack-tsize".into(), format!("OACK tsize {} but {} is {}", v, if c.write { "the client's value" } else { "the file size" }, want)));
@@ -174,9 +209,9 @@ fn converse(srv: &mut Server, c: &Case, file: &[u8], recv_dir: &Path, out: &mut 
                 }
             }
             if let Some(u) = &ex.unhonourable {
-                // acceptable only if the offending option is omitted
+                // acceptable only if the offending option is omitted (a repeated option: its values were judged above)
                 let (on, _) = u.split_once('=').unwrap();
-                if list.iter().any(|(o, _)| o.name() == on) {
+                if list.iter().any(|(o, _)| o.name() == on && !ex.honourable_max.iter().any(|(ho, _)| ho == o)) {
                     return Err(("acknowledged-unhonourable".into(), format!("OACK {:?} acknowledges {} which the server cannot honour", list, u)));
                 }
             }
@@ -200,7 +235,17 @@ fn converse(srv: &mut Server, c: &Case, file: &[u8], recv_dir: &Path, out: &mut 
             }
             out.classes.push("plain-ack0");
         }
+        // an OACK that echoes a number beyond 2^64-1 verbatim is truthful (the reference decoder cannot represent it)
+        _ if ex.oversize_tsize.is_some() && raw.len() > 2 && raw[0] == 0 && raw[1] == 6 && raw.windows(ex.oversize_tsize.as_ref().unwrap().len()).any(|w| w == ex.oversize_tsize.as_ref().unwrap().as_bytes()) => {
+            out.classes.push("oversize-tsize-echoed");
+            return Ok(());
+        }
         other => return Err(("bad-first-reply".into(), format!("first reply to {:?} is {:?} ({})", c.opts, other, hex(&raw)))),
+    }
+    if !ex.repeated.is_empty() || ex.oversize_tsize.is_some() {
+        // the acknowledged values were judged; which of two occurrences governs the transfer is not specified
+        out.classes.push("repeated-option-answered");
+        return Ok(());
     }
     let n_blocks = file.len() / blk + 1;
     if c.write {
@@ -346,6 +391,11 @@ pub fn judge(dir: &Path, c: &Case, obs: &mut Obs) -> Judge {
     obs.class_if(c.opts.iter().any(|(n, _)| n.chars().any(|ch| ch.is_ascii_uppercase()) && ROpt::from_ascii_ci(n.as_bytes()).is_some()), "mixed-case-name");
     obs.class_if(c.opts.iter().any(|(n, _)| ROpt::from_ascii_ci(n.as_bytes()).is_none()), "unknown-option-interleaved");
     obs.class_if(c.opts.iter().filter(|(n, _)| ROpt::from_ascii_ci(n.as_bytes()).is_none()).count() >= 8, "eight-or-more-unknown-options");
+    {
+        let ex = expectations(c);
+        obs.class_if(!ex.repeated.is_empty(), "recognised-option-repeated-one-unhonourable");
+        obs.class_if(ex.oversize_tsize.is_some(), "wrq-tsize-beyond-64-bits");
+    }
     let boundary = ex.recognised.iter().any(|(o, v)| match o {
         ROpt::Blksize => [7u64, 8, 9, 511, 512, 513, 65463, 65464, 65465].contains(v),
         ROpt::Windowsize => [0u64, 1, 2, 65534, 65535, 65536].contains(v),
@@ -456,6 +506,20 @@ pub fn strategy() -> BoxedStrategy<Case> {
                 nblocks = nblocks.min(3);
             }
             let file_len = nblocks * blk + if rem % 4 == 0 { 0 } else { rem % blk };
+            // one case in ~12: a recognised option twice, one occurrence unhonourable, in either order
+            if seed % 12 == 5 {
+                let (n, bad, good) = [("blksize", "4", "1024"), ("blksize", "65465", "512"), ("timeout", "0", "2"), ("windowsize", "0", "2"), ("windowsize", "65536", "3"), ("BLKSIZE", "7", "16")][(seed / 12 % 6) as usize];
+                list.retain(|(on, _)| !on.eq_ignore_ascii_case(n));
+                let pair = if seed / 72 % 2 == 0 { [(n, bad), (n, good)] } else { [(n, good), (n, bad)] };
+                let at = (seed / 144) as usize % (list.len() + 1);
+                list.insert(at, (pair[0].0.to_string(), pair[0].1.to_string()));
+                let at2 = at + 1 + (seed / 1440) as usize % (list.len() - at);
+                list.insert(at2, (pair[1].0.to_string(), pair[1].1.to_string()));
+            } else if seed % 12 == 7 && write {
+                // a tsize that does not fit 64 bits on a write request: never echoed as a different number
+                list.retain(|(on, _)| !on.eq_ignore_ascii_case("tsize"));
+                list.push(("tsize".to_string(), ["18446744073709551616", "99999999999999999999999", "18446744073709551617"][(seed / 12 % 3) as usize].to_string()));
+            }
             Case {
                 single,
                 write,
@@ -575,7 +639,7 @@ fn boundary_sweep() -> Vec<Case> {
 }
 
 pub fn run(ctx: &Ctx) {
-    ctx.set_rule("deterministic: every option alone with every boundary value (0, 1, range edges, edges +-1, beyond 2^16 and 2^32) x RRQ/WRQ; all 65 ordered selections of the four options (valid values) x 3 name spellings x RRQ/WRQ x port mode; random: per case a fresh real tftpd (single/multi port) and one request built from a generated subset and order of {blksize,timeout,tsize,windowsize} (names in lower/upper/mixed case, unknown options interleaved, values at and around every boundary) for an RRQ of a file of 0..3W+1 blocks or a WRQ. Oracle: OACK iff >=1 recognised option and none unhonourable; OACK lists only requested options with blksize/timeout/windowsize <= requested and in range, tsize = true file size (RRQ) / echo (WRQ); unhonourable values (timeout 0, windowsize 0 or >65535, blksize outside 8..65464) are never acknowledged (silence, ERROR or omission accepted); without OACK: DATA 1 / ACK 0 and 512-byte lock-step. The model client then measures the transfer: every non-final DATA has exactly the acknowledged blksize, every burst has exactly min(W, blocks left) consecutive blocks and nothing beyond, an upload is acknowledged after exactly W blocks and not before, content is byte-identical, and in timing cases (acknowledged timeout 1-2 s) the first retransmission comes no earlier than the acknowledged timeout. A second part downloads with windows larger than the default socket buffer (windowsize x blksize up to ~1.5 MB; the model client enlarges its receive buffer with SO_RCVBUFFORCE) so that 'exactly W blocks per burst' is also measured for large windows. Non-trivial = >=2 recognised options or a boundary value; distinct = distinct cases. Failures are re-run once in isolation before being reported.");
+    ctx.set_rule("deterministic: every option alone with every boundary value (0, 1, range edges, edges +-1, beyond 2^16 and 2^32) x RRQ/WRQ; all 65 ordered selections of the four options (valid values) x 3 name spellings x RRQ/WRQ x port mode; random: per case a fresh real tftpd (single/multi port) and one request built from a generated subset and order of {blksize,timeout,tsize,windowsize} (names in lower/upper/mixed case, unknown options interleaved, values at and around every boundary; one case in 12 repeats a recognised option with one unhonourable and one valid value in either order - the unhonourable one must never be acknowledged -, one WRQ in 24 carries a tsize beyond 2^64-1, which may be refused, ignored or echoed verbatim but not acknowledged as a different number) for an RRQ of a file of 0..3W+1 blocks or a WRQ. Oracle: OACK iff >=1 recognised option and none unhonourable; OACK lists only requested options with blksize/timeout/windowsize <= requested and in range, tsize = true file size (RRQ) / echo (WRQ); unhonourable values (timeout 0, windowsize 0 or >65535, blksize outside 8..65464) are never acknowledged (silence, ERROR or omission accepted); without OACK: DATA 1 / ACK 0 and 512-byte lock-step. The model client then measures the transfer: every non-final DATA has exactly the acknowledged blksize, every burst has exactly min(W, blocks left) consecutive blocks and nothing beyond, an upload is acknowledged after exactly W blocks and not before, content is byte-identical, and in timing cases (acknowledged timeout 1-2 s) the first retransmission comes no earlier than the acknowledged timeout. A second part downloads with windows larger than the default socket buffer (windowsize x blksize up to ~1.5 MB; the model client enlarges its receive buffer with SO_RCVBUFFORCE) so that 'exactly W blocks per burst' is also measured for large windows. Non-trivial = >=2 recognised options or a boundary value; distinct = distinct cases. Failures are re-run once in isolation before being reported.");
     ctx.assume("burst size min(W, blocks) x (blksize+100) is kept below 100 KB so that loopback never drops datagrams; timeouts > 255 s are not generated; early-retransmission tolerance 130 ms");
     let dirs = DirPool::new(ctx, "c09");
     let sweep = boundary_sweep();
